@@ -23,6 +23,25 @@ def norm(s):
     return s
 want = set(base["stable_pass"])
 missing = sorted(want - passed)
+# timing dependent tests can fail on a loaded machine: re-run the missing ones
+still = []
+for m in missing[:25]:
+    mod, rest = m.split("::", 1) if "::" in m else (m, "")
+    parts = mod.split(".")
+    path = "/".join(parts[:2]) + ".py" + "".join("::" + c for c in parts[2:]) + "::" + rest
+    ok = False
+    for _ in range(2):
+        r = subprocess.run(["/venv/bin/python", "-m", "pytest", "-q", "-p", "no:cacheprovider",
+                            "--timeout=300", path], cwd=repo, env=env,
+                           stdout=subprocess.PIPE, stderr=subprocess.STDOUT, text=True)
+        if " passed" in r.stdout and "failed" not in r.stdout and "error" not in r.stdout.lower().split("passed")[0][-40:]:
+            ok = True
+            break
+    if not ok:
+        still.append(m)
+    else:
+        print("  (passed on re-run: %s)" % m)
+missing = still + missing[25:]
 print("stable_pass=%d passed_now=%d missing=%d" % (len(want), len(passed), len(missing)))
 for m in missing[:40]:
     print("  MISSING", m)
